@@ -139,12 +139,18 @@ int fiber_join(fiber_t* f, void** result) {
   if (result) {
     *result = NULL;
   }
-  if (f->detach_state == FIBER_DETACH_DETACHED) {
-    return FIBER_ERROR;
-  }
-
-  const int old_state =
-      atomic_exchange(&f->detach_state, FIBER_DETACH_WAIT_TO_JOIN);
+  // claim the fiber for this joiner, but never overwrite a detach (or another
+  // joiner's claim): a blind exchange racing with fiber_detach() would replace
+  // DETACHED by WAIT_TO_JOIN, and the fiber would wait for a joiner forever
+  // when it finishes
+  int old_state = atomic_load(&f->detach_state);
+  do {
+    if (old_state == FIBER_DETACH_DETACHED ||
+        old_state == FIBER_DETACH_WAIT_TO_JOIN) {
+      return FIBER_ERROR;
+    }
+  } while (!atomic_compare_exchange_weak(&f->detach_state, &old_state,
+                                         FIBER_DETACH_WAIT_TO_JOIN));
   FIBER_VERIF_POINT(FV_JOIN_CLAIMED, f, old_state);
   if (old_state == FIBER_DETACH_NONE) {
     // need to wait till the fiber finishes
